@@ -587,6 +587,11 @@ def _layout_dependence(model, rep):
                                                               "ndim")
                   and isinstance(x.value, ast.Name) and x.value.id == "X"
                   for x in ast.walk(fn.node))
+        # subscripts with an ellipsis adapt to the rank by themselves
+        generic = all(c.args and isinstance(c.args[0], ast.Constant)
+                      and isinstance(c.args[0].value, str)
+                      and "..." in c.args[0].value for c in eins)
+        dep = dep or generic
         cons = f"{fn.cls.name}.gbasis:point-layouts"
         if dep:
             rep.ok(R5, cons, f"{len(eins)} contraction(s) of the local "
